@@ -580,6 +580,9 @@ def gen_edge(tier):
     dotted = lambda s, vs: any('a.b' in p for p in s)
     for t in trees(DOTKEYS, 3, n, [1, None], need=dotted):
         yield {'f': 'dot', 't': t}
+    # the EMPTY STRING as a key: a key like any other, one step of the path (tuple / list spellings)
+    for t in trees(('a', 'b', ''), 3, n, [1, None], need=lambda s, vs: any('' in p for p in s)):
+        yield {'f': 'dot', 't': t}
     for t in trees(DOTKEYS, 3 if tier == 'thorough' else 2, 2, [1], need=None):
         yield {'f': 'dotpairs', 't': t}
     for t in trees('ab', 3, n, [1, EMPTY], need=lambda s, vs: EMPTY in vs):
@@ -807,6 +810,12 @@ def gen_tables(tier):
                 for leaves in (itertools.product(LEAFCELLS, repeat=n) if leaf_wild else [None]):
                     rows = [list(kt) + ([leaves[i]] if leaf_wild else []) for i, kt in enumerate(kts)]
                     yield {'pattern': pattern, 'rows': rows}
+        # a leaf cell that is itself a list / tuple (one row, also given as a bare dict / Dict): the leaf is that list, whole
+        if leaf_wild:
+            for leaf in ([1, 2], [3], [], (1, 2)):
+                yield {'pattern': pattern, 'rows': [['a'] * nkeys + [leaf]]}
+                if nkeys:
+                    yield {'pattern': pattern, 'rows': [['a'] * nkeys + [leaf], ['b'] * nkeys + [1]]}
         # cells that are SPELT like a wildcard of the pattern ('%b' in column a ...): they are data
         if len(names) >= 2:
             for shift in range(1, len(names)):
